@@ -19,6 +19,7 @@ import (
 	"net/url"
 	"os"
 	"path/filepath"
+	"runtime"
 	"strings"
 	"sync/atomic"
 	"testing"
@@ -42,6 +43,20 @@ type vc20Fixture struct {
 	// closed is a loopback TCP address nothing listens on.
 	closed string
 
+	// forceFull makes the exercise create, start and query the listeners for
+	// every configuration (the other steps are repeated only if their input
+	// differs from that of the distributed configuration, as always).
+	forceFull bool
+
+	// nextPort counts the ports handed out by vc20FreePort; basePorts are the
+	// ports in the base tree.
+	nextPort  int
+	basePorts map[int]struct{}
+
+	// portBack maps the fresh ports of the current case to the ports of the
+	// base tree they stand for.
+	portBack map[uint16]uint16
+
 	// dualStack tells that a wildcard IPv6 socket can be bound and reached
 	// from the IPv4 loopback address.
 	dualStack bool
@@ -53,7 +68,11 @@ type vc20Fixture struct {
 	// GeoIP database built from it; they are set once the distributed
 	// configuration has been exercised completely.
 	baseConf *configuration
-	baseGeo  *geoip.File
+
+	// baseIfaces is the interface-listener section of baseConf with the ports
+	// of the base tree.
+	baseIfaces *interfaceListenersConfig
+	baseGeo    *geoip.File
 
 	enums map[string][]string
 	xrefs []string
@@ -195,6 +214,17 @@ func (fx *vc20Fixture) vc20Rebind(tb testing.TB, n any, path []any) (res any) {
 		}
 
 		return n
+	case int:
+		// The interface listeners get free ports of this process, so that they
+		// can really be started on the loopback interface.
+		if len(path) > 0 && path[0] == "interface_listeners" && path[len(path)-1] == "port" {
+			port := fx.vc20FreePort(tb)
+			fx.basePorts[port] = struct{}{}
+
+			return port
+		}
+
+		return n
 	case string:
 		key := ""
 		for i := len(path) - 1; i >= 0 && key == ""; i-- {
@@ -229,9 +259,89 @@ func (fx *vc20Fixture) vc20Rebind(tb testing.TB, n any, path []any) (res any) {
 	return n
 }
 
+// vc20FreePort returns a port for an interface listener.  The ports are taken
+// from a slice, chosen by the process identifier, of a range below the range
+// the kernel assigns ephemeral ports from: a bind-to-device socket of an
+// earlier case that is still closing (the manager does not wait for that) must
+// not share its port with a listener on an ephemeral port of a later case, or
+// it would take that listener's datagrams; nor with another process of the
+// check.  The ports of the slice are used in turn, and only if nothing else
+// holds them at the moment.
+func (fx *vc20Fixture) vc20FreePort(tb testing.TB) (port int) {
+	const (
+		rangeStart = 10240
+		sliceWidth = 60
+		slices     = 360
+	)
+
+	base := rangeStart + (os.Getpid()%slices)*sliceWidth
+	for i := range 2 * sliceWidth {
+		if i == sliceWidth {
+			// Sockets of finished cases are closed by their finalizers.
+			runtime.GC()
+			time.Sleep(50 * time.Millisecond)
+		}
+
+		port = base + fx.nextPort%sliceWidth
+		fx.nextPort++
+
+		pc, err := net.ListenPacket("udp", fmt.Sprintf("127.0.0.1:%d", port))
+		if err != nil {
+			continue
+		}
+
+		l, err := net.Listen("tcp", fmt.Sprintf("127.0.0.1:%d", port))
+		_ = pc.Close()
+		if err != nil {
+			continue
+		}
+
+		_ = l.Close()
+
+		return port
+	}
+
+	tb.Fatalf("fixture: no free port in %d-%d", base, base+sliceWidth)
+
+	return 0
+}
+
+// vc20FreshPorts gives the interface listeners of tree, which is a private copy,
+// ports that no earlier case of this process has used: the bind-to-device
+// manager does not wait for its sockets to close on shutdown, and a socket of
+// the previous case on the same port would take the datagrams of this one.
+func (fx *vc20Fixture) vc20FreshPorts(tb testing.TB, tree any) {
+	fx.portBack = map[uint16]uint16{}
+	list, ok := vc20Get(tree, []any{"interface_listeners", "list"})
+	if !ok {
+		return
+	}
+
+	m, ok := list.(yaml.MapSlice)
+	if !ok {
+		return
+	}
+
+	for _, it := range m {
+		l, isMap := it.Value.(yaml.MapSlice)
+		if !isMap {
+			continue
+		}
+
+		for i, kv := range l {
+			port, isInt := kv.Value.(int)
+			if _, isBase := fx.basePorts[port]; kv.Key == "port" && isInt && isBase {
+				fresh := fx.vc20FreePort(tb)
+				l[i].Value = fresh
+				fx.portBack[uint16(fresh)] = uint16(port)
+			}
+		}
+	}
+}
+
 // vc20NewFixture prepares the fixture.
 func vc20NewFixture(tb testing.TB) (fx *vc20Fixture) {
-	fx = &vc20Fixture{dir: tb.TempDir(), repo: vc20RepoDir()}
+	fx = &vc20Fixture{dir: tb.TempDir(), repo: vc20RepoDir(), basePorts: map[int]struct{}{}}
 	fx.upstream, fx.upsCount = vc20StartUpstream(tb)
 
 	l, err := net.Listen("tcp", "127.0.0.1:0")
@@ -375,8 +485,8 @@ func (fx *vc20Fixture) vc20Environment() (envs *environment) {
 		BillStatURL:              vc20URL("grpc://127.0.0.1:9"),
 		BlockedServiceIndexURL:   missing("services.json"),
 		ConsulAllowlistURL:       vc20URL("http://127.0.0.1:9/allowlist"),
-		ConsulDNSCheckKVURL:      vc20URL("http://127.0.0.1:9/kv"),
-		ConsulDNSCheckSessionURL: vc20URL("http://127.0.0.1:9/session"),
+		ConsulDNSCheckKVURL:      vc20URL("http://127.0.0.1:9/v1/kv/c20"),
+		ConsulDNSCheckSessionURL: vc20URL("http://127.0.0.1:9/v1/session/create"),
 		DNSCheckRemoteKVURL:      vc20URL("grpc://127.0.0.1:9"),
 		FilterIndexURL:           missing("filters.json"),
 		GeneralSafeSearchURL:     missing("general_ss.txt"),
